@@ -589,4 +589,638 @@ def parse (K : Classes) (text : List Char) : Option (List ASection) :=
     | .error _ => none
     | .ok p => walkProg p
 
+
+/-! ## 3. Include merging over an abstract file system -/
+
+/-- `Param.String(compact = true, quoteVal = false)` for a function/annotation parameter -/
+def KV.str (p : KV) : List Char := if p.key.isEmpty then p.val else p.key ++ ':' :: p.val
+
+def intercalateC (sep : List Char) : List (List Char) → List Char
+  | [] => []
+  | [a] => a
+  | a :: b :: r => a ++ sep ++ intercalateC sep (b :: r)
+
+/-- `Function.String(compact = true, quoteVal = false, omitEmpty = false)`: at most five
+parameters are printed, then `...`. -/
+def Fn.str (f : Fn) : List Char :=
+  let ps := (f.params.take 5).map KV.str ++ (if f.params.length > 5 then ["...".toList] else [])
+  (if f.neg then ['!'] else []) ++ f.name ++ '(' :: (intercalateC [','] ps ++ [')'])
+
+/-- `Param.String(true, false)` of an item that is a `*Param`; `none` for rules and sections. -/
+def AItem.paramStr : AItem → Option (List Char)
+  | .str k v _ => some (if k.isEmpty then v else k ++ ':' :: v)
+  | .fns k fs _ => some (k ++ ':' :: intercalateC ['&', '&'] (fs.map Fn.str))
+  | _ => none
+
+/-! ### lexical paths (`path/filepath` on Unix) -/
+
+def splitOnC (sep : Char) : List Char → List (List Char)
+  | [] => [[]]
+  | c :: cs =>
+    match splitOnC sep cs with
+    | [] => [[]]           -- unreachable
+    | h :: t => if c = sep then [] :: h :: t else (c :: h) :: t
+
+def isAbsPath (p : List Char) : Bool := p.head? = some '/'
+
+/-- one step of `Clean` on the stack of kept components (top = last kept) -/
+def cleanStep (rooted : Bool) (stack : List (List Char)) (comp : List Char) : List (List Char) :=
+  if comp = [] ∨ comp = ['.'] then stack
+  else if comp = ['.', '.'] then
+    match stack with
+    | top :: rest => if top = ['.', '.'] then comp :: stack else rest
+    | [] => if rooted then [] else [comp]
+  else comp :: stack
+
+/-- the cleaned components of a path, in order (`..` only in front, only for relative paths) -/
+def cleanComps (p : List Char) : List (List Char) :=
+  ((splitOnC '/' p).foldl (cleanStep (isAbsPath p)) []).reverse
+
+/-- `filepath.Clean` -/
+def cleanPath (p : List Char) : List Char :=
+  if p = [] then ['.']
+  else
+    let cs := intercalateC ['/'] (cleanComps p)
+    if isAbsPath p then '/' :: cs else if cs = [] then ['.'] else cs
+
+/-- `filepath.Join(a, b)` -/
+def joinPath (a b : List Char) : List Char :=
+  if a = [] ∧ b = [] then []
+  else if a = [] then cleanPath b
+  else if b = [] then cleanPath a
+  else cleanPath (a ++ '/' :: b)
+
+/-- the text up to and including the last `/` -/
+def dirPart (p : List Char) : List Char :=
+  match (splitOnC '/' p).reverse with
+  | _ :: r => (intercalateC ['/'] r.reverse) ++ (if r.isEmpty then [] else ['/'])
+  | [] => []
+
+/-- `filepath.Dir` -/
+def dirOf (p : List Char) : List Char := cleanPath (dirPart p)
+
+def hasSuffixC (s suf : List Char) : Bool := suf.reverse.isPrefixOf s.reverse
+
+def stripPrefixL : List (List Char) → List (List Char) → Option (List (List Char))
+  | [], t => some t
+  | _ :: _, [] => none
+  | b :: bs, t :: ts => if b = t then stripPrefixL bs ts else none
+
+/-- `common.EnsureFileInSubDir(filePath, dir)` at decision level: `true` = accepted.  This is
+`filepath.Rel(dir, Dir(filePath))` succeeding with a result that does not start with `..`. -/
+def ensureInSubDir (file dir : List Char) : Bool :=
+  if dir = [] then false
+  else
+    let b := cleanPath dir
+    let t := cleanPath (dirOf file)
+    if t = b then true
+    else
+      let b' := if b = ['.'] then [] else b
+      if isAbsPath b' != isAbsPath t then false
+      else
+        match stripPrefixL (cleanComps b') (if t = ['.'] then [['.']] else cleanComps t) with
+        | none => false
+        | some rest =>
+          match rest with
+          | [] => true
+          | h :: _ => !(['.', '.'].isPrefixOf h)
+
+/-! ### the abstract file system and `Merger` -/
+
+structure FileInfo where
+  isDir : Bool
+  /-- permission bits `fi.Mode() & 0777` -/
+  perm : Nat
+  content : List Char
+
+structure FS where
+  /-- `os.Open` + `Stat` (and `os.Stat` in `unsqueezeEntries`); `none` = error -/
+  stat : List Char → Option FileInfo
+  /-- `filepath.Glob`; `none` = `ErrBadPattern` -/
+  glob : List Char → Option (List (List Char))
+
+inductive MErr where
+  | circular | suffix | scope | open | isDir | perm | parse | includeGrammar | glob | statErr | fuel
+  deriving DecidableEq, Repr
+
+/-- section name ↦ items, in first-appearance order (the Go map is unordered; outputs are
+compared up to the order of names). -/
+abbrev SMap := List (List Char × List AItem)
+
+def SMap.get (m : SMap) (name : List Char) : List AItem :=
+  match m.find? (fun e => e.1 = name) with
+  | some e => e.2
+  | none => []
+
+/-- `m[name] = mergeItems(m[name], items)` -/
+def SMap.append (m : SMap) (name : List Char) (items : List AItem) : SMap :=
+  if m.any (fun e => e.1 = name) then
+    m.map (fun e => if e.1 = name then (e.1, e.2 ++ items) else e)
+  else m ++ [(name, items)]
+
+/-- `convertSectionsToMap` -/
+def sectionsToMap (ss : List ASection) : SMap :=
+  ss.foldl (fun m s => m.append s.name s.items) []
+
+/-- merge every section of `child` into `father` (the loop at the end of `dfsMerge`) -/
+def mergeInto (father child : SMap) : SMap :=
+  child.foldl (fun m e => m.append e.1 e.2) father
+
+structure MState where
+  /-- `entryToSectionMap` keys, in visiting order; every element was opened and parsed -/
+  visited : List (List Char)
+  deriving Repr
+
+/-- the checks of `readEntry` before and after opening; on success the parsed sections -/
+def readEntry (K : Classes) (fs : FS) (entryDir : List Char) (st : MState) (entry : List Char) :
+    Except MErr (MState × SMap) :=
+  if st.visited.contains entry then .error .circular
+  else if !hasSuffixC entry ".dae".toList then .error .suffix
+  else if !ensureInSubDir entry entryDir then .error .scope
+  else
+    match fs.stat entry with
+    | none => .error .open
+    | some fi =>
+      if fi.isDir then .error .isDir
+      else if fi.perm % 32 ≠ 0 then .error .perm       -- Mode()&0037 > 0
+      else
+        match parse K fi.content with
+        | none => .error .parse
+        | some ss => .ok (⟨st.visited ++ [entry]⟩, sectionsToMap ss)
+
+/-- the glob patterns of the `include` section -/
+def includePatterns (entryDir : List Char) : List AItem → Except MErr (List (List Char))
+  | [] => .ok []
+  | it :: rest =>
+    match it.paramStr with
+    | none => .error .includeGrammar
+    | some next =>
+      match includePatterns entryDir rest with
+      | .error e => .error e
+      | .ok ps => .ok ((if isAbsPath next then next else joinPath entryDir next) :: ps)
+
+/-- files of one glob result kept by `unsqueezeEntries` -/
+def keepFiles (fs : FS) : List (List Char) → Except MErr (List (List Char))
+  | [] => .ok []
+  | f :: rest =>
+    if !hasSuffixC f ".dae".toList then keepFiles fs rest
+    else
+      match fs.stat f with
+      | none => .error .statErr
+      | some fi =>
+        match keepFiles fs rest with
+        | .error e => .error e
+        | .ok fsx => .ok (if fi.isDir then fsx else f :: fsx)
+
+/-- `unsqueezeEntries` -/
+def unsqueeze (fs : FS) : List (List Char) → Except MErr (List (List Char))
+  | [] => .ok []
+  | p :: rest =>
+    match fs.glob p with
+    | none => .error .glob
+    | some files =>
+      match keepFiles fs files with
+      | .error e => .error e
+      | .ok a =>
+        match unsqueeze fs rest with
+        | .error e => .error e
+        | .ok b => .ok (a ++ b)
+
+mutual
+/-- `dfsMerge(entry, _)`: returns the visited set and the merged section map of `entry` (own
+sections first, then every included file's merged map, in listed order).  The Go code appends a
+child's map into the father's map at the end of the child's call; here the father does the same
+append when the child returns. -/
+def dfsMerge (K : Classes) (fs : FS) (entryDir : List Char) :
+    Nat → MState → List Char → Except MErr (MState × SMap)
+  | 0, _, _ => .error .fuel
+  | n + 1, st, entry =>
+    match readEntry K fs entryDir st entry with
+    | .error e => .error e
+    | .ok (st1, own) =>
+      match includePatterns entryDir (own.get "include".toList) with
+      | .error e => .error e
+      | .ok pats =>
+        match unsqueeze fs pats with
+        | .error e => .error e
+        | .ok children => dfsChildren K fs entryDir n st1 own children
+/-- the loop over `childEntries` -/
+def dfsChildren (K : Classes) (fs : FS) (entryDir : List Char) :
+    Nat → MState → SMap → List (List Char) → Except MErr (MState × SMap)
+  | _, st, acc, [] => .ok (st, acc)
+  | n, st, acc, c :: cs =>
+    match dfsMerge K fs entryDir n st c with
+    | .error e => .error e
+    | .ok (st', m) => dfsChildren K fs entryDir n st' (mergeInto acc m) cs
+end
+
+/-- `Merger.Merge()` with `entryDir = Dir(entry)`; result: merged map of the entry file and the
+list of files read. -/
+def merge (K : Classes) (fs : FS) (fuel : Nat) (entry : List Char) : Except MErr (SMap × List (List Char)) :=
+  match dfsMerge K fs (dirOf entry) fuel ⟨[]⟩ entry with
+  | .error e => .error e
+  | .ok (st, m) => .ok (m, st.visited)
+
+
+/-! ## 4. `config.New`: the reflection-driven section / parameter parser over a probed schema -/
+
+/-- what `ParamParser` / `SectionParser` distinguish about a struct field's Go type -/
+inductive FKind where
+  /-- decoded by `common.FuzzyDecode`; `k` identifies the Go type for the decode oracle -/
+  | scalar (k : Nat)
+  /-- `[]string`, `[]KeyableString` -/
+  | strList
+  /-- `interface{}` (`FunctionOrString`, `FunctionListOrString`) -/
+  | iface
+  /-- `[][]*config_parser.Function` (group `filter`) -/
+  | fnLists
+  /-- nested struct, index into `Schema.structs` -/
+  | struct (s : Nat)
+  /-- slice of structs with a `Name` field (`[]Group`) -/
+  | structList (s : Nat)
+  deriving DecidableEq, Repr
+
+structure Field where
+  key : List Char
+  kind : FKind
+  dflt : Option (List Char)
+  required : Bool
+  repeatable : Bool
+  deriving Repr
+
+structure StructDef where
+  fields : List Field
+  /-- has a `Rules []*RoutingRule` field tagged `mapstructure:"_"` -/
+  hasRules : Bool
+  deriving Repr
+
+/-- `configSectionSpecs` joined with the field types of `config.Config` -/
+structure SectionSpec where
+  name : List Char
+  required : Bool
+  kind : FKind
+  deriving Repr
+
+structure Schema where
+  structs : List StructDef
+  specs : List SectionSpec
+  deriving Repr
+
+/-- `FuzzyDecode` of a value into a scalar Go type, as an oracle: canonical print of the decoded
+value, `none` = not decodable.  Supplied by the harness from the real function. -/
+abbrev Dec := Nat → List Char → Option (List Char)
+
+/-- oracle ids of the two patch-stage validators -/
+def kindAddrPort : Nat := 100
+def kindHttpMethod : Nat := 101
+
+inductive Leaf where
+  | scalar (canon : List Char)
+  | strs (vs : List (List Char))
+  | istr (s : List Char)
+  | ifns (fs : List Fn)
+  | ifn (f : Fn)
+  | fnLists (fss : List (List Fn)) (anns : List (List KV))
+  | rules (rs : List (List Fn × Fn))
+  /-- number of elements of a struct list -/
+  | count (n : Nat)
+  deriving Repr
+
+/-- the typed configuration as a flat store: field path ↦ value; absent = Go zero value -/
+abbrev Store := List (List Char × Leaf)
+
+def Store.get? (st : Store) (path : List Char) : Option Leaf :=
+  match st.find? (fun e => e.1 = path) with
+  | some e => some e.2
+  | none => none
+
+def Store.put (st : Store) (path : List Char) (v : Leaf) : Store :=
+  if st.any (fun e => e.1 = path) then st.map (fun e => if e.1 = path then (path, v) else e)
+  else st ++ [(path, v)]
+
+def Store.del (st : Store) (path : List Char) : Store := st.filter (fun e => e.1 ≠ path)
+
+inductive CErr where
+  | requiredSection | unknownSection | patch
+  | nokey | unexpectedKey | convert | ruleCtx | requiredParam | strlistType | unmatchedType
+  | unsupportedSection | defaultDecode | fuel | badSchema
+  deriving DecidableEq, Repr
+
+def sub (path key : List Char) : List Char := if path.isEmpty then key else path ++ '.' :: key
+
+def natStr (n : Nat) : List Char := (toString n).toList
+
+/-- "fill in default value before parsing section" -/
+def applyDefaults (dec : Dec) (path : List Char) : List Field → Store → Except CErr Store
+  | [], st => .ok st
+  | f :: fs, st =>
+    match f.dflt with
+    | none => applyDefaults dec path fs st
+    | some d =>
+      match f.kind with
+      | .iface => applyDefaults dec path fs (st.put (sub path f.key) (.istr d))
+      | .scalar k =>
+        match dec k d with
+        | some c => applyDefaults dec path fs (st.put (sub path f.key) (.scalar c))
+        | none => .error .defaultDecode
+      | .strList => applyDefaults dec path fs (st.put (sub path f.key) (.strs (splitOnC ',' d)))
+      | _ => .error .defaultDecode
+
+def findField (fields : List Field) (key : List Char) : Option Field := fields.find? (fun f => f.key = key)
+
+def getStrs (st : Store) (p : List Char) : List (List Char) :=
+  match st.get? p with
+  | some (.strs vs) => vs
+  | _ => []
+
+def getCount (st : Store) (p : List Char) : Nat :=
+  match st.get? p with
+  | some (.count n) => n
+  | _ => 0
+
+/-- `StringListParser` -/
+def stringListParser (p : List Char) : List AItem → Store → Except CErr Store
+  | [], st => .ok st
+  | it :: rest, st =>
+    match it.paramStr with
+    | none => .error .strlistType
+    | some s => stringListParser p rest (st.put p (.strs (getStrs st p ++ [s])))
+
+/-- `ParamParser`'s "check required" -/
+def checkRequired (fields : List Field) (set : List (List Char)) : Bool :=
+  fields.all (fun f => !f.required || set.contains f.key)
+
+mutual
+/-- `ParamParser(to, section)` for the struct `sid` located at `path`. -/
+def paramParser (S : Schema) (dec : Dec) : Nat → Nat → List Char → List AItem → Store → Except CErr Store
+  | 0, _, _, _, _ => .error .fuel
+  | n + 1, sid, path, items, st =>
+    match S.structs[sid]? with
+    | none => .error .badSchema
+    | some sd =>
+      match applyDefaults dec path sd.fields st with
+      | .error e => .error e
+      | .ok st1 =>
+        match paramItems S dec n sd path items st1 [] with
+        | .error e => .error e
+        | .ok (st2, set) => if checkRequired sd.fields set then .ok st2 else .error .requiredParam
+/-- the loop over `section.Items`; `set` = keys with `field.Set` -/
+def paramItems (S : Schema) (dec : Dec) : Nat → StructDef → List Char → List AItem → Store →
+    List (List Char) → Except CErr (Store × List (List Char))
+  | _, _, _, [], st, set => .ok (st, set)
+  | n, sd, path, it :: rest, st, set =>
+    match it with
+    | .str key val _ =>
+      if key.isEmpty then .error .nokey
+      else
+        match findField sd.fields key with
+        | none => .error .unexpectedKey
+        | some f =>
+          let p := sub path key
+          match f.kind with
+          | .iface => paramItems S dec n sd path rest (st.put p (.istr val)) (key :: set)
+          | .strList =>
+            let old := if set.contains key then getStrs st p else []
+            paramItems S dec n sd path rest (st.put p (.strs (old ++ splitOnC ',' val))) (key :: set)
+          | .scalar k =>
+            match dec k val with
+            | some c => paramItems S dec n sd path rest (st.put p (.scalar c)) (key :: set)
+            | none => .error .convert
+          | _ => .error .convert
+    | .fns key fs ann =>
+      match findField sd.fields key with
+      | none => .error .unexpectedKey
+      | some f =>
+        let p := sub path key
+        match f.kind with
+        | .iface => paramItems S dec n sd path rest (st.put p (.ifns fs)) (key :: set)
+        | .fnLists =>
+          if f.repeatable then
+            match st.get? p with
+            | some (.fnLists fss anns) =>
+              paramItems S dec n sd path rest (st.put p (.fnLists (fss ++ [fs]) (anns ++ [ann]))) (key :: set)
+            | _ => paramItems S dec n sd path rest (st.put p (.fnLists [fs] [ann])) (key :: set)
+          else .error .convert
+        | _ => .error .convert
+    | .sec name items =>
+      match findField sd.fields name with
+      | none => .error .unexpectedKey
+      | some f =>
+        match sectionParser S dec n f.kind (sub path name) items st with
+        | .error e => .error e
+        | .ok st' => paramItems S dec n sd path rest st' (name :: set)
+    | .rule fs out =>
+      if sd.hasRules then
+        let p := sub path "#rules".toList
+        match st.get? p with
+        | some (.rules rs) => paramItems S dec n sd path rest (st.put p (.rules (rs ++ [(fs, out)]))) set
+        | _ => paramItems S dec n sd path rest (st.put p (.rules [(fs, out)])) set
+      else .error .ruleCtx
+/-- `SectionParser(to, section)` by the kind of `to` -/
+def sectionParser (S : Schema) (dec : Dec) : Nat → FKind → List Char → List AItem → Store → Except CErr Store
+  | 0, _, _, _, _ => .error .fuel
+  | n + 1, kind, path, items, st =>
+    match kind with
+    | .strList => stringListParser path items st
+    | .struct sid => paramParser S dec n sid path items st
+    | .structList sid => structListItems S dec n sid path items st
+    | _ => .error .unsupportedSection
+/-- "to is a section list (sections in section)" -/
+def structListItems (S : Schema) (dec : Dec) : Nat → Nat → List Char → List AItem → Store → Except CErr Store
+  | _, _, _, [], st => .ok st
+  | n, sid, path, it :: rest, st =>
+    match it with
+    | .sec name items =>
+      let i := getCount st path
+      let ep := path ++ '[' :: (natStr i ++ [']'])
+      match paramParser S dec n sid ep items (st.put (sub ep "#name".toList) (.scalar name)) with
+      | .error e => .error e
+      | .ok st' => structListItems S dec n sid path rest (st'.put path (.count (i + 1)))
+    | _ => .error .unmatchedType
+end
+
+/-- last section of each name wins (`nameToSection[section.Name] = …`) -/
+def lookupSection (ss : List ASection) (name : List Char) : Option ASection :=
+  ss.reverse.find? (fun s => s.name = name)
+
+def sectionHasParam (items : List AItem) (key : List Char) : Bool :=
+  items.any fun
+    | .str k _ _ => k = key
+    | .fns k _ _ => k = key
+    | _ => false
+
+def hasPrefixC (s pre : List Char) : Bool := pre.isPrefixOf s
+
+/-- `patchMustOutbound` on one outbound function -/
+def mustPatchFn (f : Fn) : Fn :=
+  if hasPrefixC f.name "must_".toList ∧ f.name ≠ "must_rules".toList then
+    ⟨f.name.drop 5, f.neg, f.params ++ [⟨[], "must".toList⟩]⟩
+  else f
+
+/-- the four patches of `config/patch.go` -/
+def applyPatches (dec : Dec) (st : Store) : Except CErr Store :=
+  -- patchBootstrapResolver
+  let br := match st.get? "global.bootstrap_resolver".toList with | some (.scalar v) => v | _ => []
+  match dec kindAddrPort br with
+  | none => .error .patch
+  | some _ =>
+    -- patchTcpCheckHttpMethod
+    let m := match st.get? "global.tcp_check_http_method".toList with | some (.scalar v) => v | _ => []
+    let st := match dec kindHttpMethod m with
+      | some _ => st
+      | none => st.put "global.tcp_check_http_method".toList (.scalar "CONNECT".toList)
+    -- patchEmptyDns
+    let st := match st.get? "dns.routing.request.fallback".toList with
+      | none => st.put "dns.routing.request.fallback".toList (.istr "asis".toList)
+      | some _ => st
+    let st := match st.get? "dns.routing.response.fallback".toList with
+      | none => st.put "dns.routing.response.fallback".toList (.istr "accept".toList)
+      | some _ => st
+    -- patchMustOutbound
+    let st := match st.get? "routing.#rules".toList with
+      | some (.rules rs) => st.put "routing.#rules".toList (.rules (rs.map fun r => (r.1, mustPatchFn r.2)))
+      | _ => st
+    let fb : Except CErr Fn := match st.get? "routing.fallback".toList with
+      | some (.istr s) => .ok ⟨s, false, []⟩
+      | some (.ifns [f]) => .ok f
+      | some (.ifn f) => .ok f
+      | _ => .error .patch
+    match fb with
+    | .error e => .error e
+    | .ok f =>
+      if hasPrefixC f.name "must_".toList then
+        .ok (st.put "routing.fallback".toList (.ifn ⟨f.name.drop 5, f.neg, f.params ++ [⟨[], "must".toList⟩]⟩))
+      else .ok st
+
+/-- decode the present sections in the order of `configSectionSpecs` -/
+def decodeSpecs (S : Schema) (dec : Dec) (fuel : Nat) (ss : List ASection) : List SectionSpec → Store → Except (CErr × List Char) Store
+  | [], st => .ok st
+  | sp :: rest, st =>
+    match lookupSection ss sp.name with
+    | none => decodeSpecs S dec fuel ss rest st
+    | some sec =>
+      match sectionParser S dec fuel sp.kind sp.name sec.items st with
+      | .error e => .error (e, sp.name)
+      | .ok st' =>
+        let st' := if sp.name = "global".toList then
+            st'.put "global.so_mark_from_dae_set".toList
+              (.scalar (if sectionHasParam sec.items "so_mark_from_dae".toList then "true".toList else "false".toList))
+          else st'
+        decodeSpecs S dec fuel ss rest st'
+
+/-- `config.New`.  The error carries the name of the section being decoded, if any. -/
+def configNew (S : Schema) (dec : Dec) (fuel : Nat) (ss : List ASection) : Except (CErr × List Char) Store :=
+  if !(S.specs.all fun sp => !sp.required || (lookupSection ss sp.name).isSome) then .error (.requiredSection, [])
+  else
+    match decodeSpecs S dec fuel ss S.specs [] with
+    | .error e => .error e
+    | .ok st =>
+      if ss.any (fun s => s.name ≠ "include".toList ∧ !(S.specs.any fun sp => sp.name = s.name)) then
+        .error (.unknownSection, [])
+      else
+        match applyPatches dec st with
+        | .error e => .error (e, [])
+        | .ok st' => .ok st'
+
+/-! ## 5. Rule-program size: match sets emitted by lowering, and the fixed-size domain-set table -/
+
+/-- how many match sets a function's key group emits (`add*` callbacks of the matcher builders) -/
+inductive Emit where
+  /-- one set, and it is a domain set (`AddSet(len(rules), …)` later) -/
+  | domain
+  /-- one set per key group -/
+  | perGroup
+  /-- one set per value -/
+  | perValue
+  deriving DecidableEq, Repr
+
+/-- `groupParamValuesByKey`: keys in first-appearance order with the number of values -/
+def groupKeys : List KV → List (List Char × Nat)
+  | [] => []
+  | p :: ps =>
+    let rest := groupKeys ps
+    -- p.key comes first; fold its later occurrences into it
+    (p.key, 1 + ((rest.find? (fun e => e.1 = p.key)).map (·.2)).getD 0) :: rest.filter (fun e => e.1 ≠ p.key)
+
+inductive SizeErr where
+  | unknownFunction | noParams | oversize
+  deriving DecidableEq, Repr
+
+/-- lowering of one function: returns the new number of match sets and the indices of the
+domain sets it emitted -/
+def lowerFn (emit : List Char → Option Emit) (f : Fn) (idx : Nat) : Except SizeErr (Nat × List Nat) :=
+  match emit f.name with
+  | none => .error .unknownFunction
+  | some e =>
+    let groups := groupKeys f.params
+    if groups.isEmpty then .error .noParams
+    else
+      match e with
+      | .domain => .ok (idx + groups.length, (List.range groups.length).map (idx + ·))
+      | .perGroup => .ok (idx + groups.length, [])
+      | .perValue => .ok (idx + (groups.map (·.2)).sum, [])
+
+def lowerFns (emit : List Char → Option Emit) : List Fn → Nat → Except SizeErr (Nat × List Nat)
+  | [], idx => .ok (idx, [])
+  | f :: fs, idx =>
+    match lowerFn emit f idx with
+    | .error e => .error e
+    | .ok (idx', ds) =>
+      match lowerFns emit fs idx' with
+      | .error e => .error e
+      | .ok (idx'', ds') => .ok (idx'', ds ++ ds')
+
+def lowerRules (emit : List Char → Option Emit) : List (List Fn × Fn) → Nat → Except SizeErr (Nat × List Nat)
+  | [], idx => .ok (idx, [])
+  | r :: rs, idx =>
+    match lowerFns emit r.1 idx with
+    | .error e => .error e
+    | .ok (idx', ds) =>
+      match lowerRules emit rs idx' with
+      | .error e => .error e
+      | .ok (idx'', ds') => .ok (idx'', ds ++ ds')
+
+/-- `AhocorasickSlimtrie.AddSet(bitIndex, …)` on the fixed-size table (`len = maxLen`): the
+bound check added by d57e46a, then the write. -/
+def addSet (table : List Nat) (bitIndex : Nat) : Except SizeErr (List Nat) :=
+  if bitIndex < table.length then .ok (table.set bitIndex (table.getD bitIndex 0 + 1))
+  else .error .oversize
+
+def addSets : List Nat → List Nat → Except SizeErr (List Nat)
+  | table, [] => .ok table
+  | table, i :: is =>
+    match addSet table i with
+    | .error e => .error e
+    | .ok t => addSets t is
+
+/-- lowering + fallback set + `BuildUserspace`/`Build`'s domain-matcher construction: number of
+match sets of the program, or the build error. -/
+def compileSize (emit : List Char → Option Emit) (maxLen : Nat) (rules : List (List Fn × Fn)) : Except SizeErr Nat :=
+  match lowerRules emit rules 0 with
+  | .error e => .error e
+  | .ok (n, ds) =>
+    match addSets (List.replicate maxLen 0) ds with
+    | .error e => .error e
+    | .ok _ => .ok (n + 1)
+
+/-- `RoutingMatcherBuilder.registerProgramParsers` + the `add*` callbacks -/
+def routingEmit (name : List Char) : Option Emit :=
+  if name = "domain".toList then some .domain
+  else if name = "ip".toList ∨ name = "sip".toList ∨ name = "l4proto".toList ∨ name = "mac".toList ∨ name = "ipversion".toList then some .perGroup
+  else if name = "port".toList ∨ name = "sport".toList ∨ name = "pname".toList ∨ name = "dscp".toList then some .perValue
+  else none
+
+/-- `dns.RequestMatcherBuilder` -/
+def dnsRequestEmit (name : List Char) : Option Emit :=
+  if name = "qname".toList then some .domain
+  else if name = "qtype".toList then some .perValue
+  else none
+
+/-- `dns.ResponseMatcherBuilder` -/
+def dnsResponseEmit (name : List Char) : Option Emit :=
+  if name = "qname".toList then some .domain
+  else if name = "ip".toList then some .perGroup
+  else if name = "upstream".toList ∨ name = "qtype".toList then some .perValue
+  else none
+
 end DaeVerif.C17
